@@ -49,7 +49,10 @@ theorem customError_spec (d : StepDef) (s : St) :
     (d.onError = none → customError d s = .ok (.dict [])) ∧
     (∀ oe, d.onError = some oe → oe.truthy = false → customError d s = .ok (.dict [])) ∧
     (∀ oe, d.onError = some oe → oe.truthy = true → customError d s = fmtV s oe) := by
-  refine ⟨fun h => ?_, fun oe h ht => ?_, fun oe h ht => ?_⟩ <;> simp [customError, h, ht]
+  refine ⟨fun h => ?_, fun oe h ht => ?_, fun oe h ht => ?_⟩
+  · simp [customError, h]
+  · simp [customError, h, ht]
+  · simp [customError, h, ht]
 
 /-- reading the fields back. -/
 theorem entry_fields (d : StepDef) (e : ExcV) (sw : Bool) (ce : Val) :
@@ -207,7 +210,7 @@ theorem invoke_marks_handled (fr : Frame) (body : Body) (callee : CofCfg → Bod
     invokeStep fr body callee s = (resetCounters fr c s2, .err e true) ∧
     (c.key ≠ "runErrors" →
       Ctx.get? (resetCounters fr c s2).ctx "runErrors" = Ctx.get? s2.ctx "runErrors") := by
-  refine ⟨?_, fun hk => C02.resetCounters_keeps_runErrors fr c s2 hk⟩
+  refine ⟨?_, fun hk => rel_resetCounters sameRE fr c s2 (by simpa using hk)⟩
   rw [invokeStep_call fr body callee s s1 s2 c _ hb hc]
 
 /-- an error raised by the step module itself is *not* marked: it will be recorded by this step. -/
@@ -274,11 +277,11 @@ theorem runErrors_append_only_step (d : StepDef) (body : Body) (callee : CofCfg 
     (fun s => prefixRE.same _ _ (fun k hk => by
       simp only [List.mem_cons, List.not_mem_nil, or_false] at hk
       subst hk
-      exact (in_frame d s).1 _ hin))
+      rw [setIn_eq]; exact ctx_get_update_notin _ _ _ hin))
     (fun s => prefixRE.same _ _ (fun k hk => by
       simp only [List.mem_cons, List.not_mem_nil, or_false] at hk
       subst hk
-      exact (in_frame d s).2.1 _ hin))
+      rw [unsetIn_eq]; exact ctx_get_eraseAll_notin _ _ _ hin))
 
 /-! ## the global statement -/
 
